@@ -310,6 +310,43 @@ def float_sum_case(draw, tier):
             "spell": draw(st.sampled_from(["method", "np"])), "lz": draw(st.sampled_from([0, 0, 1, 2]))}
 
 
+def body_mean_wide(case, ctx):
+    """row means of full-range 64-bit (and 32-bit) integers: the exact row sum need not fit 64 bits.  Reference = exact
+    rational mean per non-empty row; tolerance = a float64 summation bound, 1e-12 * sum|a| / n"""
+    a = case["a"]
+    rows = np_rows(a)
+    ctx.label(*gen.shape_labels(a["lens"]), "dt:" + a["dt"], "spell:" + case["spell"])
+    big = any(abs(sum(int(v) for v in r)) >= 2**63 for r in rows)
+    ctx.label("row-sum-leaves-64-bits" if big else "row-sums-fit")
+    ctx.nt(big)
+    ra = lazy_ra(rows, a["dt"], case["lz"])
+    keep = case["keepdims"]
+    with np.errstate(all="ignore"):
+        got = lib_twice(lambda: ra.mean(axis=-1, keepdims=keep) if case["spell"] == "method" else np.mean(ra, axis=-1, keepdims=keep))
+    if not got.ok:
+        raise Violation("mean-wide:unexpected-refusal", got=got.brief())
+    v = np.asarray(got.value)
+    n = len(rows)
+    if v.shape != ((n, 1) if keep else (n,)) or v.dtype.kind != "f":
+        raise Violation("mean-wide:shape-or-kind", got=got.brief())
+    v = v.reshape(n)
+    for i, r in enumerate(rows):
+        if len(r):
+            ints = [int(x) for x in r]
+            S = sum(abs(x) for x in ints)
+            if abs(float(v[i]) - sum(ints) / len(ints)) > 1e-12 * S / len(ints) + 1e-300:
+                raise Violation("mean-wide:value", row=i, expected=sum(ints) / len(ints), got=float(v[i]), values=ints[:12])
+    expect_unchanged(ra, rows, a["dt"], "reduce-operand")
+
+
+@st.composite
+def mean_wide_case(draw, tier):
+    dt = draw(st.sampled_from(["int64", "uint64", "int64", "int32"]))
+    a = draw(gen.ragged(tier, dts=[dt], min_rows=1))
+    return {"a": a, "spell": draw(st.sampled_from(["method", "np"])), "keepdims": draw(st.sampled_from([False, False, True])),
+            "lz": draw(st.sampled_from(LAZY_CHOICES))}
+
+
 def body_sequence(case, ctx):
     """2-5 reductions of different kinds (named, ufunc.reduce, argmax / argmin; either spelling, axis -1 / 1, keepdims) asked
     of ONE array object in a generated order: every answer equals numpy's per row, whatever was asked before"""
@@ -341,6 +378,8 @@ def sequence_case(draw, tier):
 SUBCHECKS = [
     SubCheck("reduction-sequence", body_sequence, sequence_case, quick=4000, thorough=300000, shards_quick=3,
              doc="2-5 reductions of different kinds / spellings / axis / keepdims on one array object, each against numpy per row"),
+    SubCheck("row-mean-full-range-ints", body_mean_wide, mean_wide_case, quick=3000, thorough=200000, shards_quick=2,
+             doc="mean(axis=-1) of full-range int64 / uint64 / int32 rows against the exact rational mean (float64 summation bound)"),
     SubCheck("named", body_named, named_case, quick=12000, thorough=1200000, shards_quick=6,
              doc="sum/prod/any/all (all shapes) and max/min/mean (non-empty rows) via method, np.<name>, ufunc.reduce; keepdims"),
     SubCheck("ufunc-reduce", body_ufunc, ufunc_case, quick=8000, thorough=800000, shards_quick=4,
